@@ -209,6 +209,14 @@ def classify(proc):
         return "ok", ""
     if proc.rc < 0 and proc.rc != -999:
         return "infra", "killed by signal %d" % (-proc.rc)
+    if any(a.startswith("-test.fuzz=") for a in proc.extra_args):
+        # A fuzzing campaign reports a finding by writing a crasher file. Under heavy load the Go fuzz
+        # coordinator can end with "context deadline exceeded" (a worker did not answer in time) and no
+        # crasher: that is the end of the time budget, not a violation.
+        crash = [f for f in glob.glob(os.path.join(proc.cwd, "testdata", "fuzz", "*", "*"))
+                 if os.path.isfile(f) and not os.path.basename(f).startswith("seed-")]
+        if not crash and "context deadline exceeded" in out and "panic:" not in out and "Failing input written" not in out:
+            return "ok", "fuzz coordinator deadline without crasher"
     if "cannot allocate memory" in out or "out of memory" in out:
         return "infra", "out of memory"
     if "[rapid] flaky test" in out:
